@@ -35,7 +35,7 @@ def run(ck):
         deaths = vlib.run_executions(exe, lambda st: ["tok", "reuse-enum", fl, depth, n] + alpha, 1, tp, timeout=1200)
         vlib.conformance(ck, "G:all-prefixes-reset-probes(%s,flags %d,len<=%d)" % (name, fl, n), "TraceTokReuse", "trace.cfg", tp,
                          deaths, diag_of, min_events=100, timeout=1800, split_every=2000)
-    n = 6000 if thorough else 1200
+    n = 20000 if thorough else 1200
     tp = os.path.join(ck.dir, "v.ndjson")
     deaths = vlib.run_executions(exe, lambda st: ["tok", "reuse-drive", st, n], n, tp, timeout=1200)
     vlib.conformance(ck, "V:arbitrary-bytes-reuse", "TraceTokReuse", "trace.cfg", tp, deaths, diag_of, min_events=n, timeout=1800,
